@@ -345,6 +345,9 @@ func c10() {
 		}
 	})
 	c10Lying()
+	c10Scripted()
+	c10ScriptedRoots()
+	c10ScriptedProofs()
 	run.DistinctN = int64(len(outcomes))
 	run.Extra["corrupted_runs"] = len(jobs)
 	run.Extra["runs_reporting_success"] = accepted
